@@ -149,8 +149,10 @@ Print Assumptions C07_pid_address.
 
 (* ---- C07_view_updates: after ANY history the decision is a function of the functions
         registered last, the default installed last and the LAST view only ---- *)
-Theorem C07_view_updates : forall (F : Type) (interp : F -> rfn) (h : list (op F)) (o : op F),
-  obs_at interp h o = out (hreg interp h) (hdflt interp h) (last_view h) o.
+Theorem C07_view_updates : forall (F : Type) (interp : F -> rfn) (pinterp : F -> rule)
+    (h : list (op F)) (o : op F),
+  obs_at interp pinterp h o =
+  out (hreg interp h) (hdflt interp h) (hrules pinterp h) (hpdflt pinterp h) (last_view h) o.
 Proof. exact obs_at_history. Qed.
 Print Assumptions C07_view_updates.
 
@@ -171,10 +173,89 @@ Proof. exact decision_frame. Qed.
 Print Assumptions C07_decision_frame.
 
 (* [obs_at] is what [run] emits at that position, for every history *)
-Theorem C07_run_snoc : forall (F : Type) (interp : F -> rfn) (h : list (op F)) (o : op F),
-  run interp (h ++ [o]) = run interp h ++ [obs_at interp h o].
+Theorem C07_run_snoc : forall (F : Type) (interp : F -> rfn) (pinterp : F -> rule)
+    (h : list (op F)) (o : op F),
+  run interp pinterp (h ++ [o]) = run interp pinterp h ++ [obs_at interp pinterp h o].
 Proof. exact run_snoc. Qed.
 Print Assumptions C07_run_snoc.
+
+(* ---- calls that overlap, calls that nest ----
+   [rules] / [dflt] are ARBITRARY programs (Model.prog: reads of the parameter, type switches,
+   nested Route calls, scheduling points, with arbitrary continuations). *)
+
+(* the frame theorem: under ANY schedule of ANY pool of goroutines inside the route layer, a
+   goroutine is exactly where it would be had it made its own steps alone - no other call's
+   parameter, wrapper or progress can reach it *)
+Theorem C07_interleaving_frame : forall rules dflt sched pool i,
+  nth_error (prun rules dflt sched pool) i
+  = option_map (iter rules dflt (ncount i sched)) (nth_error pool i).
+Proof. exact prun_nth. Qed.
+Print Assumptions C07_interleaving_frame.
+
+(* the step machine reaches what [eval] (the meaning used by the executable model) computes *)
+Theorem C07_eval_adequate : forall rules dflt fuel ty p n t,
+  eval rules dflt fuel 0 ty p = Some (n, t) ->
+  exists k, forall j, (k <= j)%nat -> iter rules dflt j (start rules dflt ty p) = TDone n t.
+Proof. exact eval_adequate. Qed.
+Print Assumptions C07_eval_adequate.
+
+(* calls made together, each from its own goroutine: whatever the others do and however the
+   scheduler interleaves them, call i ends with the name and with the view of its parameter
+   that it has when it is made alone *)
+Theorem C07_concurrent_calls_isolated : forall rules dflt fuel (cs : list (Z * param)) i ty p n t,
+  nth_error cs i = Some (ty, p) ->
+  eval rules dflt fuel 0 ty p = Some (n, t) ->
+  exists k, forall sched, (k <= ncount i sched)%nat ->
+    nth_error (prun rules dflt sched (map (fun c => start rules dflt (fst c) (snd c)) cs)) i
+    = Some (TDone n t).
+Proof. exact concurrent_isolated. Qed.
+Print Assumptions C07_concurrent_calls_isolated.
+
+(* the rule consulted for a call is handed the CALLER'S parameter: its kind, and for every key
+   it reads the value the caller's parameter binds it to *)
+Theorem C07_rule_sees_own_param : forall rules dflt fuel ty p n t,
+  eval rules dflt fuel 0 ty p = Some (n, t) -> sees_own ty p t.
+Proof. exact eval_sees_own. Qed.
+Print Assumptions C07_rule_sees_own_param.
+
+(* a call made by a rule (at any depth) is a call: same name, same view of ITS parameter as the
+   same call made by a service *)
+Theorem C07_nested_call_is_call : forall rules dflt fuel d ty p,
+  eval rules dflt fuel d ty p = shifted d (eval rules dflt fuel 0 ty p).
+Proof. exact eval_shift. Qed.
+Print Assumptions C07_nested_call_is_call.
+
+(* and the rule that made it goes on with ITS OWN parameter: the nested call contributes its
+   name and its trace, nothing else *)
+Theorem C07_nested_call_frame : forall nest d cty p c ty rp,
+  evalp nest d (PCall cty p c) ty rp =
+  match nest (d + 1) cty p with
+  | None => None
+  | Some (n, t) => pre (t ++ [VCall d cty n]) (evalp nest d (c n) ty rp)
+  end.
+Proof. reflexivity. Qed.
+Print Assumptions C07_nested_call_frame.
+
+(* the name is the one [route] (all theorems above) talks about, with each rule read as the
+   function "type, parameter -> what the program answers" *)
+Theorem C07_nested_result : forall rules dflt fuel d ty p n t,
+  eval rules dflt (S fuel) d ty p = Some (n, t) ->
+  n = route (fun t0 => option_map (den rules dflt fuel d) (rules t0))
+            (option_map (den rules dflt fuel d) dflt) p ty.
+Proof. exact eval_route. Qed.
+Print Assumptions C07_nested_result.
+
+(* the scripted functions of the harness: program and answer agree *)
+Theorem C07_script_coherent : forall nest s d ty rp r t,
+  evalp nest d (prog_of_script s ty) ty rp = Some (r, t) -> r = interp_script s ty rp.
+Proof. exact script_coherent. Qed.
+Print Assumptions C07_script_coherent.
+
+(* the schedule under which calls in flight together are run does not show *)
+Theorem C07_schedule_irrelevant : forall (F : Type) reg dflt rules pdflt v cs s1 s2,
+  out reg dflt rules pdflt v (@OCalls F cs s1) = out reg dflt rules pdflt v (@OCalls F cs s2).
+Proof. exact out_schedule_irrelevant. Qed.
+Print Assumptions C07_schedule_irrelevant.
 
 (* ---- model vs. property vocabulary ---- *)
 (* the model's call refines the property-level specification *)
@@ -185,8 +266,9 @@ Print Assumptions C07_call_refines_spec.
 
 (* every trace the model admits passes the monitor (so a monitor failure on an implementation
    trace is a violation of the property, not of the model) *)
-Theorem C07_monitor_sound : forall (F : Type) (interp : F -> rfn) (ops : list (op F)) bs,
-  admits_all (run interp ops) bs = true -> monitor_from interp [] ops bs = true.
+Theorem C07_monitor_sound : forall (F : Type) (interp : F -> rfn) (pinterp : F -> rule)
+    (ops : list (op F)) bs,
+  admits_all (run interp pinterp ops) bs = true -> monitor_from interp [] ops bs = true.
 Proof. exact monitor_all. Qed.
 Print Assumptions C07_monitor_sound.
 
@@ -240,3 +322,35 @@ Qed.
 Example C07_example_cause :
   cause (fun _ => None) (Some (app_default ex_view)) ex_view [7; 5; 6] PNil.
 Proof. eapply CUnknownType; reflexivity. Qed.
+
+(* two goroutines, both rules stop at a scheduling point BEFORE reading their key; a rule that
+   routes with a key map of its own before it reads its key *)
+Definition ex_par : list sop :=
+  [OUpdate ex_view;
+   OReg 1 (Some (SPre [AYield] (SKey 1 [(1, RName 1); (2, RName 2)] (RName 0) (RName 0))));
+   OReg 2 (Some (SPre [ACall 1 (PMap [(1, 2)]); AYield] (SKey 1 [(1, RName 3); (2, RName 5)] (RName 0) (RName 0))));
+   OCalls [CRequest [1; 5; 6] (PMap [(1, 1)]); CRequest [1; 5; 6] (PMap [(1, 2)]);
+           CRoute 2 (PSess [(1, 1)]); CNotify [2; 5; 6] PNil] [0; 1; 2; 3; 1; 0]].
+
+Example C07_example_calls :
+  run_s ex_par
+  = [MUnit; MUnit; MUnit;
+     MCalls [(MOut (OSend [(0, 1); (0, 1); (0, 1)] true 5 6),
+              Some [VKind 0 1 KMap; VGet 0 1 (Some 1)]);
+             (MOut (OSend [(0, 2); (0, 2); (0, 2)] true 5 6),
+              Some [VKind 0 1 KMap; VGet 0 1 (Some 2)]);
+             (MName 3,
+              Some [VKind 0 2 KSess; VKind 1 1 KMap; VGet 1 1 (Some 2); VCall 0 1 2; VGet 0 1 (Some 1)]);
+             (MOut ONothing,
+              Some [VKind 0 2 KNil; VKind 1 1 KMap; VGet 1 1 (Some 2); VCall 0 1 2])]].
+Proof. vm_compute. reflexivity. Qed.
+
+(* the step machine under a schedule that stops both goroutines between wrapper creation and
+   the read: both end with their own key *)
+Example C07_example_interleaving :
+  let rules := hrules prog_of_script ex_par in
+  let dflt := hpdflt prog_of_script ex_par in
+  prun rules dflt [0; 1; 0; 1; 1; 0; 0; 1; 0; 1]%nat
+       [start rules dflt 1 (PMap [(1, 1)]); start rules dflt 1 (PMap [(1, 2)])]
+  = [TDone 1 [VKind 0 1 KMap; VGet 0 1 (Some 1)]; TDone 2 [VKind 0 1 KMap; VGet 0 1 (Some 2)]].
+Proof. vm_compute. reflexivity. Qed.
